@@ -171,6 +171,7 @@ type Hand struct {
 	ReplayTrace []TraceStep // replay: execute exactly these steps (probe steps are re-made by the monitor)
 	replayPos   int
 	Opts        *pokerface.GameOptions // the options value the hand's game was made from (the table may start its next hand from the same value)
+	prevDoc     *pokerface.GameState   // the state document of the previous wait point
 	pre         func()                 // set-up that plays other hands first (runs inside playHand, under its recover and C06's guard)
 	spare       pokerface.Game         // a used game object from the pool: the hand may move onto it (LoadState) mid-way
 	lastInc     int64                  // size of the last bet or raise actually made in this round, as seen by the driver (0 = none yet)
@@ -458,6 +459,23 @@ func playHand(h *Hand, mon Monitor) {
 		}
 		if kind == "reload" {
 			h.Trace = append(h.Trace, TraceStep{Op: op, Kind: kind})
+			if h.prevDoc != nil && len(h.Trace)%2 == 0 {
+				// a store that keeps time in whole seconds: the worker is first given the document of the
+				// previous wait point and then the current one, both carrying the same coarse stamp ("up to
+				// timestamps" - nothing may hang on them)
+				x, cur := cloneGS(h.prevDoc), cloneGS(s)
+				coarse := s.UpdatedAt / 1e9 * 1e9
+				x.UpdatedAt, cur.UpdatedAt = coarse, coarse
+				if err := g.LoadState(x); err == nil {
+					if err := g.LoadState(cur); err != nil {
+						mon.Stuck(h, "reload-refused: "+err.Error())
+						return
+					}
+					h.Rep.Inc("in_place_reloads")
+					h.Rep.Inc("reloads_with_coarse_timestamps")
+					continue
+				}
+			}
 			if err := g.LoadState(cloneGS(s)); err != nil {
 				mon.Stuck(h, "reload-refused: "+err.Error())
 				return
@@ -466,6 +484,9 @@ func playHand(h *Hand, mon Monitor) {
 			continue
 		}
 		pre := cloneGS(s)
+		if c.Noise {
+			h.prevDoc = cloneGS(s) // (its own copy: monitors may consume pre)
+		}
 		h.Trace = append(h.Trace, TraceStep{Op: op, Kind: kind})
 		err := applyOp(g, op)
 		if err != nil {
